@@ -169,7 +169,7 @@ PROPS["C06"] = {
         lane("TestMatrix", "matrix", 0, 0, norapid=True, must_classes=["pos:array-element", "pos:map-value", "pos:oneof-type-only", "pos:grid:plain", "pos:grid:query"]),
         lane("TestDeep", "deep", 0, 0, norapid=True),
         lane("TestMutate", "mutate", 1200, 5000, shards=16),
-        lane("TestQuery", "query", 20000, 80000, shards=8),
+        lane("TestQuery", "query", 20000, 80000, shards=8, must_classes=["punct-key"]),
         fuzz("FuzzDecode"),
     ],
 }
@@ -234,7 +234,7 @@ PROPS["C18"] = {
              "recursion, an unchecked flatten, a non-string map key, an enum without UNSPECIFIED or any validate/list/j5 option. Distinct by hash(files, messages)."),
     "assumptions": [],
     "lanes": [
-        lane("TestArbitrary", "arbitrary", 1500, 6000, shards=16),
+        lane("TestArbitrary", "arbitrary", 1500, 6000, shards=16, must_classes=["nested-depth>=3", "nested-name-reused", "nested-twin-chains", "field-numbers-out-of-order", "enum-numbers-out-of-order"]),
     ],
 }
 
@@ -293,7 +293,7 @@ PROPS["C14"] = {
              "Distinct by hash(sources, file order, call order)."),
     "assumptions": [],
     "lanes": [
-        lane("TestDeterminism", "determinism", 150, 800, shards=16, must_classes=["enum-option-info", "multi-package", "multi-file-package", "stale-generated-file", "nested-package"]),
+        lane("TestDeterminism", "determinism", 150, 800, shards=16, must_classes=["enum-option-info", "multi-package", "multi-file-package", "stale-generated-file", "nested-package", "earlier-compile", "imports-sharing-default-name"]),
     ],
 }
 
@@ -310,7 +310,7 @@ PROPS["C13"] = {
              "last of its file. Distinct by hash(final sources, edit kinds)."),
     "assumptions": [],
     "lanes": [
-        lane("TestAppend", "append", 150, 800, shards=16, must_classes=["not-last-in-file", "edit:option-to-enum", "edit:field-to-object", "edit:declaration-to-file", "name:shadows-top-level-type", "name:sorts-first", "name:option-ends-in-unspecified"]),
+        lane("TestAppend", "append", 150, 800, shards=16, must_classes=["not-last-in-file", "edit:option-to-enum", "edit:field-to-object", "edit:declaration-to-file", "name:shadows-top-level-type", "name:sorts-first", "name:option-ends-in-unspecified", "name:derives-existing-type-name"]),
     ],
 }
 
@@ -346,7 +346,7 @@ PROPS["C12"] = {
              "Distinct by hash(declaration, candidates)."),
     "assumptions": ["bounds are inclusive unless the exclusive flag is true; required means present (non-zero for fields without presence); pattern is an RE2 search"],
     "lanes": [
-        lane("TestRules", "rules", 600, 3000, shards=16, must_classes=["both-verdicts", "kind:integer:INT32", "kind:enum", "kind:array:string", "kind:map:string", "kind:map:key"]),
+        lane("TestRules", "rules", 600, 3000, shards=16, must_classes=["both-verdicts", "kind:integer:INT32", "kind:enum", "kind:array:string", "kind:map:string", "kind:map:key", "siblings:1", "siblings:2"]),
     ],
 }
 
@@ -363,7 +363,7 @@ PROPS["C04"] = {
     "rule": ("readback: j5sgen.Draw (<=2 packages x <=2 files). Non-trivial: at least one rule, list rule, key format, flatten or description is present. Distinct by hash of the sources."),
     "assumptions": ["nested / inline types are named <Parent>_<Child> in the schema set (the reader's convention for nested messages)"],
     "lanes": [
-        lane("TestReadback", "readback", 300, 1500, shards=16, must_classes=["rules:string", "rules:integer", "rules:array", "rules:enum:names-unspecified", "rules:enum:several-names", "list:string", "key:custom", "flatten", "description"]),
+        lane("TestReadback", "readback", 300, 1500, shards=16, must_classes=["rules:string", "rules:integer", "rules:array", "rules:enum:names-unspecified", "rules:enum:several-names", "list:string", "key:custom", "flatten", "description", "key-entity:foreign", "key-entity:primary", "key-entity:tenant"]),
     ],
 }
 
